@@ -651,7 +651,12 @@ def run_soundfile(cfg):
 
         @staticmethod
         def dtype(d):
-            return d
+            # canonical name of a real dtype spelling ('i2', '<i4', int, ...); abstract tokens ('DT') stay as they are
+            import numpy as _np
+            try:
+                return _np.dtype(d).name
+            except TypeError:
+                return d
     ns = loader.load_unit('util', dict(np=NP), name='pydrobert.speech.util')
     sfm = types.ModuleType('soundfile')
     sfm.SoundFile = SF
